@@ -1287,6 +1287,13 @@ class HTMLTemplateCompiler (TemplateCompiler, FixedHTMLParser.HTMLParser):
 		self.minimizeBooleanAtts = minimizeBooleanAtts
 		self.feed (file.read())
 		self.close()
+		# Elements that carry TAL/METAL commands must have been closed by the end of the template,
+		# otherwise their end tag symbol is never defined.
+		for oldTag, tagProperties, useMacroLocation in self.tagStack:
+			if (tagProperties.get ('endTagSymbol', None) is not None):
+				msg = "TAL/METAL Elements must be balanced - no close tag found for %s" % oldTag[0]
+				self.log.error (msg)
+				raise TemplateParseException (self.tagAsText (oldTag), msg)
 		
 	def tagAsText (self, tagObj, singletonFlag=0):
 		""" This returns a tag as text.
